@@ -536,11 +536,17 @@ func lcmMode(c *Ctx) string {
 
 // checkShardIDRejections: see O7.6.
 func checkShardIDRejections(c *Ctx, res *report.Result, rule string) {
-	f := resolve(c, res, rule, anchor{"proxy", "*adminServiceProxyServer", "StreamWorkflowReplicationMessages"})
-	if f == nil {
-		return
-	}
 	n := 0
+	for _, a := range []anchor{{"proxy", "*adminServiceProxyServer", "StreamWorkflowReplicationMessages"}, {"proxy", "*StreamForwarder", "Run"}} {
+		if f := resolve(c, res, rule, a); f != nil {
+			n += checkShardIDRejectionsIn(c, res, rule, f, n)
+		}
+	}
+	res.Analysed["shard_id_rejections"] = n
+}
+
+func checkShardIDRejectionsIn(c *Ctx, res *report.Result, rule string, f *ssa.Function, n0 int) int {
+	n := n0
 	for _, b := range f.Blocks {
 		for _, ins := range b.Instrs {
 			iff, ok := ins.(*ssa.If)
@@ -580,7 +586,7 @@ func checkShardIDRejections(c *Ctx, res *report.Result, rule string) {
 								}
 							}
 						}
-						res.Check(bad == "", rule, fmt.Sprintf("StreamWorkflowReplicationMessages: shard-id rejection #%d refuses only ids outside 1..count", n), instrPos(c.Prog, iff), "the helper tests the id against 0 / 1 only",
+						res.Check(bad == "", rule, fmt.Sprintf("%s: shard-id rejection #%d refuses only ids outside 1..count", f.Name(), n), instrPos(c.Prog, iff), "the helper tests the id against 0 / 1 only",
 							"the stream is refused by a helper that bounds the shard id from above by a constant ("+bad+"): in LCM mode the server shard id in the metadata runs up to the least common multiple of the two counts, which exceeds any single cluster's maximum - every stream for a shard above the constant is refused on both servers and never replicates")
 					}
 				}
@@ -642,8 +648,8 @@ func checkShardIDRejections(c *Ctx, res *report.Result, rule string) {
 			} else if p, _ := flow.FieldPath(other); strings.HasSuffix(p, ".LCM") || strings.HasSuffix(p, "ShardCount") {
 				okBound = op == token.GTR
 			}
-			res.Check(okBound, rule, fmt.Sprintf("StreamWorkflowReplicationMessages: shard-id rejection #%d refuses only ids outside 1..count", n), instrPos(c.Prog, iff), desc, "the stream is refused under "+desc+": with 1-based shard ids this refuses a valid shard of the presented space (e.g. s == LCM), whose stream is then never forwarded")
+			res.Check(okBound, rule, fmt.Sprintf("%s: shard-id rejection #%d refuses only ids outside 1..count", f.Name(), n), instrPos(c.Prog, iff), desc, "the stream is refused under "+desc+": with 1-based shard ids this refuses a valid shard of the presented space (e.g. s == LCM), whose stream is then never forwarded")
 		}
 	}
-	res.Analysed["shard_id_rejections"] = n
+	return n - n0
 }
